@@ -1,6 +1,8 @@
 import J5V.Conc.Sched
-/-! Lemmas for `J5V.Conc.Sched` (core only): mutual exclusion invariant, race freedom,
-deadlock freedom, serialisability. The property theorems are restated in `J5V/Props/C10.lean`. -/
+/-! Lemmas for `J5V.Conc.Sched` (core only): how a step decomposes, the lock-mode invariant of the
+reader/writer discipline and co-enabled race freedom. Deadlock freedom is in `SchedFlat.lean`,
+serialisability in `SchedSerial.lean`, happens-before in `SchedHB.lean`. The property theorems are
+restated in `J5V/Props/C10.lean`. -/
 namespace J5V.Conc.Sched
 
 theorem getElem?_set_cases {α : Type} (xs : List α) (j i : Nat) (r t : α)
@@ -15,104 +17,6 @@ theorem getElem?_set_cases {α : Type} (xs : List α) (j i : Nat) (r t : α)
   · simp only [hji, if_false] at h
     right; exact ⟨fun e => hji e.symm, h⟩
 
-/-! ## mutual exclusion invariant and race freedom -/
-
-def GInv (l : Nat) (s : State) : Prop :=
-  ∀ (i : Nat) (t : Thread), s.rem[i]? = some t → guardedFrom l (decide (s.owner l = some i)) t = true
-
-theorem ginv_init (l : Nat) (p : Prog) (h : AllGuardedBy l p) : GInv l (init p) := by
-  intro i t ht
-  have hm : t ∈ p := List.mem_of_getElem? ht
-  simpa [init] using h t hm
-
-theorem ginv_step (wv : WriteFn) (l : Nat) (s : State) (j : Nat) (h : GInv l s) :
-    GInv l (step wv s j) := by
-  unfold step
-  split
-  · exact h
-  · exact h
-  · rename_i a r hj
-    have hj' := h j _ hj
-    cases a with
-    | lock l' =>
-      simp only []
-      split
-      · rename_i hfree
-        intro i t ht
-        simp only [] at ht
-        rcases getElem?_set_cases _ _ _ _ _ ht with ⟨rfl, rfl⟩ | ⟨hij, hi⟩
-        · by_cases hl : l' = l
-          · subst hl
-            simp only [guardedFrom, if_true, hfree] at hj'
-            simpa using hj'
-          · simp only [guardedFrom, hl, if_false] at hj'
-            simpa [upd, Ne.symm hl] using hj'
-        · have := h i t hi
-          by_cases hl : l' = l
-          · subst hl
-            simp only [hfree] at this
-            simpa [upd, Ne.symm hij] using this
-          · simpa [upd, Ne.symm hl] using this
-      · exact h
-    | unlock l' =>
-      simp only []
-      split
-      · rename_i hown
-        intro i t ht
-        simp only [] at ht
-        rcases getElem?_set_cases _ _ _ _ _ ht with ⟨rfl, rfl⟩ | ⟨hij, hi⟩
-        · by_cases hl : l' = l
-          · subst hl
-            simp only [guardedFrom, if_true, hown] at hj'
-            simpa using hj'
-          · simp only [guardedFrom, hl, if_false] at hj'
-            simpa [upd, Ne.symm hl] using hj'
-        · have := h i t hi
-          by_cases hl : l' = l
-          · subst hl
-            simp only [hown] at this
-            simpa [upd, hij, Ne.symm hij] using this
-          · simpa [upd, Ne.symm hl] using this
-      · exact h
-    | read x =>
-      intro i t ht
-      simp only [] at ht ⊢
-      rcases getElem?_set_cases _ _ _ _ _ ht with ⟨rfl, rfl⟩ | ⟨_, hi⟩
-      · simp only [guardedFrom, Bool.and_eq_true] at hj'; exact hj'.2
-      · exact h i t hi
-    | write x =>
-      intro i t ht
-      simp only [] at ht ⊢
-      rcases getElem?_set_cases _ _ _ _ _ ht with ⟨rfl, rfl⟩ | ⟨_, hi⟩
-      · simp only [guardedFrom, Bool.and_eq_true] at hj'; exact hj'.2
-      · exact h i t hi
-    | tau =>
-      intro i t ht
-      simp only [] at ht ⊢
-      rcases getElem?_set_cases _ _ _ _ _ ht with ⟨rfl, rfl⟩ | ⟨_, hi⟩
-      · simpa [guardedFrom] using hj'
-      · exact h i t hi
-
-theorem ginv_runFrom (wv : WriteFn) (l : Nat) (sched : List Nat) (s : State) (h : GInv l s) :
-    GInv l (runFrom wv s sched) := by
-  induction sched generalizing s with
-  | nil => exact h
-  | cons j rest ih => exact ih _ (ginv_step wv l s j h)
-
-theorem access_holds (l : Nat) (h : Bool) (a : Action) (r : Thread) (x : Nat) (w : Bool)
-    (ha : a.access = some (x, w)) (hg : guardedFrom l h (a :: r) = true) : h = true := by
-  cases a <;> simp [Action.access] at ha <;> simp [guardedFrom] at hg <;> exact hg.1
-
-theorem ginv_no_race (l : Nat) (s : State) (h : GInv l s) : ¬ Race s := by
-  rintro ⟨i, j, hij, ai, aj, ri, rj, x, wi, wj, hi, hj, hai, haj, _⟩
-  have h1 := access_holds l _ ai ri x wi hai (h i _ hi)
-  have h2 := access_holds l _ aj rj x wj haj (h j _ hj)
-  simp only [decide_eq_true_eq] at h1 h2
-  rw [h1] at h2
-  exact hij (Option.some.inj h2)
-
-/-! ## no nested acquisition ⇒ no deadlock -/
-
 theorem getElem?_set_isSome {α : Type} (xs : List α) (j u : Nat) (r t : α) (h : xs[u]? = some t) :
     ∃ t', (xs.set j r)[u]? = some t' := by
   rw [List.getElem?_set]
@@ -125,413 +29,379 @@ theorem getElem?_set_isSome {α : Type} (xs : List α) (j u : Nat) (r t : α) (h
     exact ⟨r, by simp [this]⟩
   · exact ⟨t, by simp [hju, h]⟩
 
-def FInv (s : State) : Prop :=
-  (∀ (i : Nat) (t : Thread), s.rem[i]? = some t →
-      ∃ h : Option Nat, flat h t = true ∧ ∀ l, s.owner l = some i ↔ h = some l) ∧
-  (∀ (l u : Nat), s.owner l = some u → ∃ tu : Thread, s.rem[u]? = some tu)
+theorem set_self_getElem? {α : Type} (xs : List α) (j : Nat) (r t : α) (h : xs[j]? = some t) :
+    (xs.set j r)[j]? = some r := by
+  obtain ⟨t', ht'⟩ := getElem?_set_isSome xs j j r t h
+  rcases getElem?_set_cases _ _ _ _ _ ht' with ⟨_, rfl⟩ | ⟨hne, _⟩
+  · exact ht'
+  · exact absurd rfl hne
 
-theorem finv_init (p : Prog) (h : NoNesting p) : FInv (init p) := by
-  refine ⟨?_, ?_⟩
-  · intro i t ht
-    exact ⟨none, h t (List.mem_of_getElem? ht), by simp [init]⟩
-  · intro l u hu
-    simp [init] at hu
+/-! ## anatomy of a step -/
 
-theorem flat_lock (h : Option Nat) (l : Nat) (r : Thread) (hf : flat h (.lock l :: r) = true) :
-    h = none ∧ flat (some l) r = true := by
-  cases h <;> simp [flat] at hf ⊢
-  exact hf
+theorem step_fire (wv : WriteFn) (s : State) (i : Nat) (a : Action) (r : Thread)
+    (h : s.rem[i]? = some (a :: r)) (hc : canFire s i a = true) : step wv s i = fire wv s i a r := by
+  simp [step, h, hc]
 
-theorem flat_unlock (h : Option Nat) (l : Nat) (r : Thread) (hf : flat h (.unlock l :: r) = true) :
-    h = some l ∧ flat none r = true := by
-  cases h <;> simp [flat] at hf ⊢
-  exact hf
+theorem step_blocked (wv : WriteFn) (s : State) (i : Nat) (a : Action) (r : Thread)
+    (h : s.rem[i]? = some (a :: r)) (hc : canFire s i a = false) : step wv s i = announce s i a := by
+  simp [step, h, hc]
 
-theorem flat_other (h : Option Nat) (a : Action) (r : Thread) (hl : ∀ l, a ≠ .lock l)
-    (hu : ∀ l, a ≠ .unlock l) (hf : flat h (a :: r) = true) : flat h r = true := by
+theorem step_cases (wv : WriteFn) (s : State) (i : Nat) :
+    step wv s i = s ∨
+    (∃ a r, s.rem[i]? = some (a :: r) ∧ canFire s i a = true ∧ step wv s i = fire wv s i a r) ∨
+    (∃ a r, s.rem[i]? = some (a :: r) ∧ canFire s i a = false ∧ step wv s i = announce s i a) := by
+  cases h : s.rem[i]? with
+  | none => left; simp [step, h]
+  | some t =>
+    cases t with
+    | nil => left; simp [step, h]
+    | cons a r =>
+      cases hc : canFire s i a with
+      | true => right; left; exact ⟨a, r, rfl, hc, step_fire wv s i a r h hc⟩
+      | false => right; right; exact ⟨a, r, rfl, hc, step_blocked wv s i a r h hc⟩
+
+@[simp] theorem fire_rem (wv : WriteFn) (s : State) (i : Nat) (a : Action) (r : Thread) :
+    (fire wv s i a r).rem = s.rem.set i r := by cases a <;> rfl
+
+/-- a blocked step changes nothing but the writer announcement -/
+theorem announce_eq (s : State) (i : Nat) (a : Action) : ∃ pd, announce s i a = { s with pending := pd } := by
   cases a with
-  | lock l => exact absurd rfl (hl l)
-  | unlock l => exact absurd rfl (hu l)
-  | read x => cases h <;> simpa [flat] using hf
-  | write x => cases h <;> simpa [flat] using hf
-  | tau => cases h <;> simpa [flat] using hf
+  | lock l =>
+    simp only [announce]
+    split
+    · exact ⟨_, rfl⟩
+    · exact ⟨s.pending, rfl⟩
+  | _ => exact ⟨s.pending, rfl⟩
 
-theorem finv_step_other (_wv : WriteFn) (s : State) (j : Nat) (a : Action) (r : Thread)
-    (h : FInv s) (hj : s.rem[j]? = some (a :: r)) (hl : ∀ l, a ≠ .lock l) (hu : ∀ l, a ≠ .unlock l)
-    (s' : State) (hrem : s'.rem = s.rem.set j r) (hown : s'.owner = s.owner) : FInv s' := by
-  obtain ⟨h1, h2⟩ := h
-  refine ⟨?_, ?_⟩
+theorem step_mem_of_not_write (wv : WriteFn) (s : State) (i : Nat)
+    (h : ∀ x r, s.rem[i]? ≠ some (.write x :: r)) : (step wv s i).mem = s.mem := by
+  rcases step_cases wv s i with h0 | ⟨a, r, ha, _, hs⟩ | ⟨a, r, _, _, hs⟩
+  · rw [h0]
+  · rw [hs]
+    cases a with
+    | write x => exact absurd ha (h x r)
+    | _ => rfl
+  · rw [hs]
+    obtain ⟨pd, hpd⟩ := announce_eq s i a
+    rw [hpd]
+
+/-! ## the lock-mode invariant and co-enabled race freedom -/
+
+/-- how thread `i` holds `l` in state `s` -/
+def modeOf (l : Nat) (s : State) (i : Nat) : Mode :=
+  if s.owner l = some i then .W else if i ∈ s.readers l then .R else .N
+
+theorem modeOf_W (l : Nat) (s : State) (i : Nat) : modeOf l s i = .W ↔ s.owner l = some i := by
+  unfold modeOf
+  split
+  · simp_all
+  · split <;> simp_all
+
+theorem modeOf_R (l : Nat) (s : State) (i : Nat) :
+    modeOf l s i = .R ↔ s.owner l ≠ some i ∧ i ∈ s.readers l := by
+  unfold modeOf
+  split
+  · simp_all
+  · split <;> simp_all
+
+theorem modeOf_N (l : Nat) (s : State) (i : Nat) :
+    modeOf l s i = .N ↔ s.owner l ≠ some i ∧ i ∉ s.readers l := by
+  unfold modeOf
+  split
+  · simp_all
+  · split <;> simp_all
+
+theorem modeOf_congr (l : Nat) (s s' : State) (i : Nat) (ho : s'.owner l = s.owner l)
+    (hr : s'.readers l = s.readers l) : modeOf l s' i = modeOf l s i := by
+  unfold modeOf; rw [ho, hr]
+
+/-- what a lock discipline `D` (a predicate on the mode in which `l` is held and the remaining
+program) must say about the four operations on `l`, and that it is closed under every other step -/
+structure Disc (l : Nat) (D : Mode → Thread → Bool) : Prop where
+  lock : ∀ m r, D m (.lock l :: r) = true → m = .N ∧ D .W r = true
+  unlock : ∀ m r, D m (.unlock l :: r) = true → m = .W ∧ D .N r = true
+  rlock : ∀ m r, D m (.rlock l :: r) = true → m = .N ∧ D .R r = true
+  runlock : ∀ m r, D m (.runlock l :: r) = true → m = .R ∧ D .N r = true
+  other : ∀ m a r, a ≠ .lock l → a ≠ .unlock l → a ≠ .rlock l → a ≠ .runlock l →
+    D m (a :: r) = true → D m r = true
+
+/-- every thread's remaining program obeys the discipline from the mode in which it holds `l`
+now; a writer excludes readers; a thread holds at most one read lock -/
+def GIx (l : Nat) (D : Mode → Thread → Bool) (s : State) : Prop :=
+  (∀ (i : Nat) (t : Thread), s.rem[i]? = some t → D (modeOf l s i) t = true) ∧
+  (∀ i, s.owner l = some i → s.readers l = []) ∧ (s.readers l).Nodup
+
+/-- the invariant of the reader/writer discipline with published locations `X` -/
+def GI (l : Nat) (X : Nat → Bool) (s : State) : Prop := GIx l (pubGuardedFrom l X) s
+
+theorem disc_pub (l : Nat) (X : Nat → Bool) : Disc l (pubGuardedFrom l X) where
+  lock := by intro m r h; simpa [pubGuardedFrom] using h
+  unlock := by intro m r h; simpa [pubGuardedFrom] using h
+  rlock := by intro m r h; simpa [pubGuardedFrom] using h
+  runlock := by intro m r h; simpa [pubGuardedFrom] using h
+  other := by
+    intro m a r h1 h2 h3 h4 h
+    cases a with
+    | lock l' => simpa [pubGuardedFrom, show l' ≠ l from fun e => h1 (by rw [e])] using h
+    | unlock l' => simpa [pubGuardedFrom, show l' ≠ l from fun e => h2 (by rw [e])] using h
+    | rlock l' => simpa [pubGuardedFrom, show l' ≠ l from fun e => h3 (by rw [e])] using h
+    | runlock l' => simpa [pubGuardedFrom, show l' ≠ l from fun e => h4 (by rw [e])] using h
+    | read x => simp only [pubGuardedFrom, Bool.and_eq_true] at h; exact h.2
+    | write x => simp only [pubGuardedFrom, Bool.and_eq_true] at h; exact h.2
+    | tau => simpa [pubGuardedFrom] using h
+
+theorem gix_init (l : Nat) (D : Mode → Thread → Bool) (p : Prog) (h : ∀ t ∈ p, D .N t = true) :
+    GIx l D (init p) := by
+  refine ⟨?_, ?_, ?_⟩
+  · intro i t ht
+    have hm : t ∈ p := List.mem_of_getElem? ht
+    have : modeOf l (init p) i = .N := by simp [modeOf, init]
+    rw [this]; exact h t hm
+  · intro i hi; simp [init] at hi
+  · simp [init]
+
+theorem gi_init (l : Nat) (X : Nat → Bool) (p : Prog) (h : PubGuardedBy l X p) : GI l X (init p) :=
+  gix_init l _ p h
+
+/-- a step that leaves the holders of `l` alone -/
+theorem gix_same (l : Nat) (D : Mode → Thread → Bool) (s s' : State) (j : Nat) (a : Action) (r : Thread)
+    (h : GIx l D s) (hj : s.rem[j]? = some (a :: r)) (hrem : s'.rem = s.rem.set j r)
+    (ho : s'.owner l = s.owner l) (hr : s'.readers l = s.readers l)
+    (hpg : ∀ m, D m (a :: r) = true → D m r = true) : GIx l D s' := by
+  obtain ⟨h1, h2, h3⟩ := h
+  refine ⟨?_, ?_, ?_⟩
   · intro i t ht
     rw [hrem] at ht
-    rw [hown]
+    rw [modeOf_congr l s s' i ho hr]
     rcases getElem?_set_cases _ _ _ _ _ ht with ⟨rfl, rfl⟩ | ⟨_, hi⟩
-    · obtain ⟨hh, hf, ho⟩ := h1 i _ hj
-      exact ⟨hh, flat_other hh a _ hl hu hf, ho⟩
+    · exact hpg _ (h1 i _ hj)
     · exact h1 i t hi
-  · intro l u hu'
-    rw [hown] at hu'
-    obtain ⟨tu, htu⟩ := h2 l u hu'
-    rw [hrem]
-    exact getElem?_set_isSome _ _ _ _ _ htu
+  · intro i hi; rw [hr]; exact h2 i (ho ▸ hi)
+  · rw [hr]; exact h3
 
-theorem finv_step (wv : WriteFn) (s : State) (j : Nat) (h : FInv s) : FInv (step wv s j) := by
-  unfold step
-  split
-  · exact h
-  · exact h
-  · rename_i a r hj
+theorem gix_step (wv : WriteFn) (l : Nat) (D : Mode → Thread → Bool) (hd : Disc l D) (s : State) (j : Nat)
+    (h : GIx l D s) : GIx l D (step wv s j) := by
+  rcases step_cases wv s j with h0 | ⟨a, r, hj, hc, hs⟩ | ⟨a, r, _, _, hs⟩
+  · rw [h0]; exact h
+  · rw [hs]
+    have h' := h
+    obtain ⟨h1, h2, h3⟩ := h
+    have hjg := h1 j _ hj
     cases a with
-    | lock l =>
-      simp only []
-      split
-      · rename_i hfree
-        obtain ⟨h1, h2⟩ := h
-        obtain ⟨hh, hf, ho⟩ := h1 j _ hj
-        obtain ⟨rfl, hf'⟩ := flat_lock hh l r hf
-        refine ⟨?_, ?_⟩
+    | lock l' =>
+      by_cases hl : l' = l
+      · subst hl
+        simp only [canFire, Bool.and_eq_true, decide_eq_true_eq] at hc
+        obtain ⟨⟨hfree, hnord⟩, _⟩ := hc
+        have hN : ∀ i, modeOf l' s i = .N := fun i => (modeOf_N l' s i).mpr ⟨by simp [hfree], by simp [hnord]⟩
+        refine ⟨?_, ?_, ?_⟩
         · intro i t ht
-          simp only [] at ht ⊢
+          simp only [fire] at ht
           rcases getElem?_set_cases _ _ _ _ _ ht with ⟨rfl, rfl⟩ | ⟨hij, hi⟩
-          · refine ⟨some l, hf', ?_⟩
-            intro l2
-            by_cases hl2 : l2 = l
-            · subst hl2; simp [upd]
-            · have := ho l2
-              simp only [reduceCtorEq, iff_false] at this
-              simp [upd, hl2, this, Ne.symm hl2]
-          · obtain ⟨hi', hfi, hoi⟩ := h1 i t hi
-            refine ⟨hi', hfi, ?_⟩
-            intro l2
-            by_cases hl2 : l2 = l
-            · subst hl2
-              have := hoi l2
-              rw [hfree] at this
-              simp only [reduceCtorEq, false_iff] at this
-              simp [upd, Ne.symm hij, this]
-            · simpa [upd, hl2] using hoi l2
-        · intro l2 u hu
-          simp only [] at hu ⊢
-          by_cases hl2 : l2 = l
-          · subst hl2
-            simp [upd] at hu
-            subst hu
-            exact getElem?_set_isSome _ _ _ _ _ hj
-          · simp [upd, hl2] at hu
-            obtain ⟨tu, htu⟩ := h2 l2 u hu
-            exact getElem?_set_isSome _ _ _ _ _ htu
-      · exact h
-    | unlock l =>
-      simp only []
-      split
-      · rename_i hown
-        obtain ⟨h1, h2⟩ := h
-        obtain ⟨hh, hf, ho⟩ := h1 j _ hj
-        obtain ⟨rfl, hf'⟩ := flat_unlock hh l r hf
-        refine ⟨?_, ?_⟩
+          · have : modeOf l' (fire wv s i (.lock l') t) i = .W := (modeOf_W ..).mpr (by simp [fire])
+            rw [this]
+            exact (hd.lock _ _ hjg).2
+          · have : modeOf l' (fire wv s j (.lock l') r) i = .N :=
+              (modeOf_N ..).mpr ⟨by simp [fire, Ne.symm hij], by simp [fire, hnord]⟩
+            rw [this, ← hN i]; exact h1 i t hi
+        · intro i _; simpa [fire] using hnord
+        · simpa [fire] using h3
+      · exact gix_same l D s _ j _ r h' hj (by simp) (by simp [fire, upd, Ne.symm hl]) (by simp [fire])
+          (fun m hm => hd.other m _ r (by simp [hl]) (by simp [hl]) (by simp [hl]) (by simp [hl]) hm)
+    | unlock l' =>
+      by_cases hl : l' = l
+      · subst hl
+        simp only [canFire, decide_eq_true_eq] at hc
+        have hnord := h2 j hc
+        refine ⟨?_, ?_, ?_⟩
         · intro i t ht
-          simp only [] at ht ⊢
+          simp only [fire] at ht
+          have hpost : modeOf l' (fire wv s j (.unlock l') r) i = .N :=
+            (modeOf_N ..).mpr ⟨by simp [fire], by simp [fire, hnord]⟩
+          rw [hpost]
           rcases getElem?_set_cases _ _ _ _ _ ht with ⟨rfl, rfl⟩ | ⟨hij, hi⟩
-          · refine ⟨none, hf', ?_⟩
-            intro l2
-            by_cases hl2 : l2 = l
-            · subst hl2; simp [upd]
-            · have := ho l2
-              simp only [Option.some.injEq] at this
-              simp [upd, hl2, this, Ne.symm hl2]
-          · obtain ⟨hi', hfi, hoi⟩ := h1 i t hi
-            refine ⟨hi', hfi, ?_⟩
-            intro l2
-            by_cases hl2 : l2 = l
-            · subst hl2
-              have := hoi l2
-              rw [hown] at this
-              simp only [Option.some.injEq] at this
-              simp [upd]
-              intro e
-              exact hij (this.mpr e).symm
-            · simpa [upd, hl2] using hoi l2
-        · intro l2 u hu
-          simp only [] at hu ⊢
-          by_cases hl2 : l2 = l
-          · subst hl2
-            simp [upd] at hu
-          · simp [upd, hl2] at hu
-            obtain ⟨tu, htu⟩ := h2 l2 u hu
-            exact getElem?_set_isSome _ _ _ _ _ htu
-      · exact h
-    | read x => exact finv_step_other wv s j _ r h hj (by simp) (by simp) _ rfl rfl
-    | write x => exact finv_step_other wv s j _ r h hj (by simp) (by simp) _ rfl rfl
-    | tau => exact finv_step_other wv s j _ r h hj (by simp) (by simp) _ rfl rfl
+          · exact (hd.unlock _ _ hjg).2
+          · have : modeOf l' s i = .N := (modeOf_N ..).mpr ⟨by simp [hc, Ne.symm hij], by simp [hnord]⟩
+            rw [← this]; exact h1 i t hi
+        · intro i hi; simp [fire] at hi
+        · simpa [fire] using h3
+      · exact gix_same l D s _ j _ r h' hj (by simp) (by simp [fire, upd, Ne.symm hl]) (by simp [fire])
+          (fun m hm => hd.other m _ r (by simp [hl]) (by simp [hl]) (by simp [hl]) (by simp [hl]) hm)
+    | rlock l' =>
+      by_cases hl : l' = l
+      · subst hl
+        simp only [canFire, Bool.and_eq_true, decide_eq_true_eq] at hc
+        obtain ⟨hfree, _⟩ := hc
+        have hjN : modeOf l' s j = .N := (hd.rlock _ _ hjg).1
+        have hjnot : j ∉ s.readers l' := ((modeOf_N ..).mp hjN).2
+        refine ⟨?_, ?_, ?_⟩
+        · intro i t ht
+          simp only [fire] at ht
+          rcases getElem?_set_cases _ _ _ _ _ ht with ⟨rfl, rfl⟩ | ⟨hij, hi⟩
+          · have : modeOf l' (fire wv s i (.rlock l') t) i = .R :=
+              (modeOf_R ..).mpr ⟨by simp [fire, hfree], by simp [fire]⟩
+            rw [this]
+            exact (hd.rlock _ _ hjg).2
+          · have : modeOf l' (fire wv s j (.rlock l') r) i = modeOf l' s i := by
+              unfold modeOf; simp [fire, hij]
+            rw [this]; exact h1 i t hi
+        · intro i hi; simp [fire, hfree] at hi
+        · simpa [fire] using ⟨hjnot, h3⟩
+      · exact gix_same l D s _ j _ r h' hj (by simp) (by simp [fire]) (by simp [fire, upd, Ne.symm hl])
+          (fun m hm => hd.other m _ r (by simp [hl]) (by simp [hl]) (by simp [hl]) (by simp [hl]) hm)
+    | runlock l' =>
+      by_cases hl : l' = l
+      · subst hl
+        simp only [canFire, decide_eq_true_eq] at hc
+        have hfree : ∀ u, s.owner l' ≠ some u := by
+          intro u hu; rw [h2 u hu] at hc; simp at hc
+        have hjR : modeOf l' s j = .R := (modeOf_R ..).mpr ⟨hfree j, hc⟩
+        refine ⟨?_, ?_, ?_⟩
+        · intro i t ht
+          simp only [fire] at ht
+          rcases getElem?_set_cases _ _ _ _ _ ht with ⟨rfl, rfl⟩ | ⟨hij, hi⟩
+          · have : modeOf l' (fire wv s i (.runlock l') t) i = .N :=
+              (modeOf_N ..).mpr ⟨by simpa [fire] using hfree i, by simp [fire, h3.mem_erase_iff]⟩
+            rw [this]
+            exact (hd.runlock _ _ hjg).2
+          · have : modeOf l' (fire wv s j (.runlock l') r) i = modeOf l' s i := by
+              unfold modeOf; simp [fire, List.mem_erase_of_ne hij]
+            rw [this]; exact h1 i t hi
+        · intro i hi; exact absurd (by simpa [fire] using hi) (hfree i)
+        · simpa [fire] using h3.erase j
+      · exact gix_same l D s _ j _ r h' hj (by simp) (by simp [fire]) (by simp [fire, upd, Ne.symm hl])
+          (fun m hm => hd.other m _ r (by simp [hl]) (by simp [hl]) (by simp [hl]) (by simp [hl]) hm)
+    | read x =>
+      exact gix_same l D s _ j _ r h' hj (by simp) (by simp [fire]) (by simp [fire])
+        (fun m hm => hd.other m _ r (by simp) (by simp) (by simp) (by simp) hm)
+    | write x =>
+      exact gix_same l D s _ j _ r h' hj (by simp) (by simp [fire]) (by simp [fire])
+        (fun m hm => hd.other m _ r (by simp) (by simp) (by simp) (by simp) hm)
+    | tau =>
+      exact gix_same l D s _ j _ r h' hj (by simp) (by simp [fire]) (by simp [fire])
+        (fun m hm => hd.other m _ r (by simp) (by simp) (by simp) (by simp) hm)
+  · rw [hs]
+    obtain ⟨pd, hpd⟩ := announce_eq s j a
+    rw [hpd]
+    exact h
 
-theorem finv_runFrom (wv : WriteFn) (sched : List Nat) (s : State) (h : FInv s) :
-    FInv (runFrom wv s sched) := by
+theorem gix_runFrom (wv : WriteFn) (l : Nat) (D : Mode → Thread → Bool) (hd : Disc l D) (sched : List Nat)
+    (s : State) (h : GIx l D s) : GIx l D (runFrom wv s sched) := by
   induction sched generalizing s with
   | nil => exact h
-  | cons j rest ih => exact ih _ (finv_step wv s j h)
+  | cons j rest ih => exact ih _ (gix_step wv l D hd s j h)
 
-theorem finv_enabled (s : State) (h : FInv s) (hnd : ¬ AllDone s) : ∃ i, Enabled s i := by
-  obtain ⟨h1, h2⟩ := h
-  unfold AllDone at hnd
-  simp only [Classical.not_forall] at hnd
-  obtain ⟨i, t, ht, hne⟩ := hnd
-  cases t with
-  | nil => exact absurd rfl hne
-  | cons a r =>
-    obtain ⟨hh, hf, ho⟩ := h1 i _ ht
+theorem gi_step (wv : WriteFn) (l : Nat) (X : Nat → Bool) (s : State) (j : Nat) (h : GI l X s) :
+    GI l X (step wv s j) := gix_step wv l _ (disc_pub l X) s j h
+
+theorem gi_runFrom (wv : WriteFn) (l : Nat) (X : Nat → Bool) (sched : List Nat) (s : State)
+    (h : GI l X s) : GI l X (runFrom wv s sched) := gix_runFrom wv l _ (disc_pub l X) sched s h
+
+/-- what the discipline says about a thread that is about to access `x` -/
+theorem gi_access (l : Nat) (X : Nat → Bool) (s : State) (h : GI l X s) (i : Nat) (a : Action)
+    (r : Thread) (x : Nat) (w : Bool) (hi : s.rem[i]? = some (a :: r)) (ha : a.access = some (x, w)) :
+    (w = true → s.owner l = some i) ∧
+    (w = false → X x = true ∨ s.owner l = some i ∨ (i ∈ s.readers l ∧ ∀ u, s.owner l ≠ some u)) := by
+  have hg := h.1 i _ hi
+  cases a with
+  | write y =>
+    simp only [Action.access, Option.some.injEq, Prod.mk.injEq] at ha
+    obtain ⟨_, rfl⟩ := ha
+    simp only [pubGuardedFrom, Bool.and_eq_true, beq_iff_eq] at hg
+    exact ⟨fun _ => (modeOf_W ..).mp hg.1, fun hf => by cases hf⟩
+  | read y =>
+    simp only [Action.access, Option.some.injEq, Prod.mk.injEq] at ha
+    obtain ⟨rfl, rfl⟩ := ha
+    refine ⟨fun hf => (by cases hf), fun _ => ?_⟩
+    simp only [pubGuardedFrom, Bool.and_eq_true, Bool.or_eq_true, bne_iff_ne, ne_eq] at hg
+    rcases hg.1 with hx | hm
+    · exact Or.inl hx
+    · right
+      cases hmo : modeOf l s i with
+      | N => exact absurd hmo hm
+      | W => exact Or.inl ((modeOf_W ..).mp hmo)
+      | R =>
+        have := (modeOf_R ..).mp hmo
+        refine Or.inr ⟨this.2, fun u hu => ?_⟩
+        rw [h.2.1 u hu] at this
+        simp at this
+  | lock _ => simp [Action.access] at ha
+  | unlock _ => simp [Action.access] at ha
+  | rlock _ => simp [Action.access] at ha
+  | runlock _ => simp [Action.access] at ha
+  | tau => simp [Action.access] at ha
+
+/-- under the reader/writer discipline (nothing published) no two conflicting accesses are ever
+enabled together -/
+theorem gi_no_race (l : Nat) (s : State) (h : GI l (fun _ => false) s) : ¬ Race s := by
+  rintro ⟨i, j, hij, ai, aj, ri, rj, x, wi, wj, hi, hj, hai, haj, hw⟩
+  have hI := gi_access l _ s h i ai ri x wi hi hai
+  have hJ := gi_access l _ s h j aj rj x wj hj haj
+  have excl : ∀ u v, s.owner l = some u → (s.owner l = some v ∨ (v ∈ s.readers l ∧ ∀ u, s.owner l ≠ some u)) → u = v := by
+    intro u v hu hv
+    rcases hv with hv | ⟨_, hv⟩
+    · rw [hu] at hv; exact Option.some.inj hv
+    · exact absurd hu (hv u)
+  rcases hw with hw | hw
+  · have hio := hI.1 hw
+    cases wj with
+    | true => exact hij (excl i j hio (Or.inl (hJ.1 rfl)))
+    | false =>
+      rcases hJ.2 rfl with hx | hx
+      · cases hx
+      · exact hij (excl i j hio hx)
+  · have hjo := hJ.1 hw
+    cases wi with
+    | true => exact hij (excl j i hjo (Or.inl (hI.1 rfl))).symm
+    | false =>
+      rcases hI.2 rfl with hx | hx
+      · cases hx
+      · exact hij (excl j i hjo hx).symm
+
+/-- the mutex discipline is the reader/writer discipline without read locks -/
+theorem guarded_pubGuarded (l : Nat) (X : Nat → Bool) (h : Bool) (t : Thread)
+    (hg : guardedFrom l h t = true) : pubGuardedFrom l X (if h then .W else .N) t = true := by
+  induction t generalizing h with
+  | nil => cases h <;> simp_all [guardedFrom, pubGuardedFrom]
+  | cons a r ih =>
     cases a with
-    | lock l =>
-      obtain ⟨rfl, _⟩ := flat_lock hh l r hf
-      cases hown : s.owner l with
-      | none => exact ⟨i, _, _, ht, hown⟩
-      | some u =>
-        obtain ⟨tu, htu⟩ := h2 l u hown
-        obtain ⟨hu, hfu, hou⟩ := h1 u tu htu
-        have hul : hu = some l := (hou l).mp hown
-        subst hul
-        cases tu with
-        | nil => simp [flat] at hfu
-        | cons b r' =>
-          cases b with
-          | lock l' => simp [flat] at hfu
-          | unlock l' =>
-            obtain ⟨he, _⟩ := flat_unlock _ l' r' hfu
-            cases he
-            exact ⟨u, _, _, htu, hown⟩
-          | read x => exact ⟨u, _, _, htu, trivial⟩
-          | write x => exact ⟨u, _, _, htu, trivial⟩
-          | tau => exact ⟨u, _, _, htu, trivial⟩
-    | unlock l =>
-      obtain ⟨rfl, _⟩ := flat_unlock hh l r hf
-      exact ⟨i, _, _, ht, (ho l).mpr rfl⟩
-    | read x => exact ⟨i, _, _, ht, trivial⟩
-    | write x => exact ⟨i, _, _, ht, trivial⟩
-    | tau => exact ⟨i, _, _, ht, trivial⟩
-
-/-! ## … and every run can be completed -/
-
-def totalRem (s : State) : Nat := (s.rem.map List.length).sum
-
-theorem sum_length_set {α : Type} (xs : List (List α)) (i : Nat) (a : α) (r : List α)
-    (h : xs[i]? = some (a :: r)) :
-    ((xs.set i r).map List.length).sum + 1 = (xs.map List.length).sum := by
-  induction xs generalizing i with
-  | nil => simp at h
-  | cons x xs ih =>
-    cases i with
-    | zero =>
-      simp only [List.getElem?_cons_zero, Option.some.injEq] at h
-      subst h
-      simp only [List.set_cons_zero, List.map_cons, List.sum_cons, List.length_cons]
-      omega
-    | succ i =>
-      simp only [List.getElem?_cons_succ] at h
-      have := ih i h
-      simp only [List.set_cons_succ, List.map_cons, List.sum_cons]
-      omega
-
-theorem enabled_step_rem (wv : WriteFn) (s : State) (i : Nat) (h : Enabled s i) :
-    ∃ a r, s.rem[i]? = some (a :: r) ∧ (step wv s i).rem = s.rem.set i r := by
-  obtain ⟨a, r, hr, hen⟩ := h
-  refine ⟨a, r, hr, ?_⟩
-  cases a <;> simp_all [step]
-
-theorem enabled_step_totalRem (wv : WriteFn) (s : State) (i : Nat) (h : Enabled s i) :
-    totalRem (step wv s i) + 1 = totalRem s := by
-  obtain ⟨a, r, hr, hstep⟩ := enabled_step_rem wv s i h
-  unfold totalRem
-  rw [hstep]
-  exact sum_length_set s.rem i a r hr
-
-theorem finv_can_finish (wv : WriteFn) (n : Nat) :
-    ∀ s : State, FInv s → totalRem s = n → ∃ more : List Nat, AllDone (runFrom wv s more) := by
-  induction n with
-  | zero =>
-    intro s hf hn
-    refine ⟨[], ?_⟩
-    apply Classical.byContradiction
-    intro hnd
-    obtain ⟨i, hi⟩ := finv_enabled s hf hnd
-    have := enabled_step_totalRem wv s i hi
-    omega
-  | succ n ih =>
-    intro s hf hn
-    by_cases hd : AllDone s
-    · exact ⟨[], hd⟩
-    · obtain ⟨i, hi⟩ := finv_enabled s hf hd
-      have hlen := enabled_step_totalRem wv s i hi
-      obtain ⟨more, hmore⟩ := ih (step wv s i) (finv_step wv s i hf) (by omega)
-      exact ⟨i :: more, hmore⟩
-
-/-! ## one critical section per operation ⇒ every schedule is a sequential execution -/
-
-def BInv (l : Nat) (s : State) : Prop :=
-  s.owner l = none ∧ ∀ (j : Nat) (t : Thread), s.rem[j]? = some t → opsShape l false t = true
-
-def MInv (l : Nat) (s : State) (i : Nat) : Prop :=
-  s.owner l = some i ∧ (∃ t : Thread, s.rem[i]? = some t ∧ opsShape l true t = true) ∧
-    ∀ (j : Nat) (t : Thread), j ≠ i → s.rem[j]? = some t → opsShape l false t = true
-
-theorem stepN_succ_right (wv : WriteFn) (s : State) (i k : Nat) :
-    stepN wv s i (k + 1) = step wv (stepN wv s i k) i := by
-  induction k generalizing s with
-  | zero => rfl
-  | succ k ih => simp only [stepN] at ih ⊢; exact ih _
-
-theorem getD_of_getElem? {α : Type} (xs : List α) (i : Nat) (t d : α) (h : xs[i]? = some t) :
-    xs.getD i d = t := by
-  simp [List.getD_eq_getElem?_getD, h]
-
-theorem opsShape_true_cons (l : Nat) (t : Thread) (h : opsShape l true t = true) :
-    ∃ b r, t = b :: r ∧
-      ((b = .unlock l ∧ opsShape l false r = true) ∨
-       ((∀ l', b ≠ .lock l') ∧ (∀ l', b ≠ .unlock l') ∧ opsShape l true r = true)) := by
-  cases t with
-  | nil => simp [opsShape] at h
-  | cons b r =>
-    refine ⟨b, r, rfl, ?_⟩
-    cases b with
-    | lock l' => simp [opsShape] at h
+    | lock l' =>
+      by_cases hl : l' = l
+      · simp only [guardedFrom, hl, if_true, Bool.and_eq_true, Bool.not_eq_true'] at hg
+        obtain ⟨rfl, hr⟩ := hg
+        simpa [pubGuardedFrom, hl] using ih true hr
+      · simp only [guardedFrom, hl, if_false] at hg
+        simpa [pubGuardedFrom, hl] using ih h hg
     | unlock l' =>
-      simp [opsShape] at h
-      left; exact ⟨by rw [h.1], h.2⟩
-    | read x => right; exact ⟨by simp, by simp, by simpa [opsShape] using h⟩
-    | write x => right; exact ⟨by simp, by simp, by simpa [opsShape] using h⟩
-    | tau => right; exact ⟨by simp, by simp, by simpa [opsShape] using h⟩
+      by_cases hl : l' = l
+      · simp only [guardedFrom, hl, if_true, Bool.and_eq_true] at hg
+        obtain ⟨rfl, hr⟩ := hg
+        simpa [pubGuardedFrom, hl] using ih false hr
+      · simp only [guardedFrom, hl, if_false] at hg
+        simpa [pubGuardedFrom, hl] using ih h hg
+    | rlock l' =>
+      by_cases hl : l' = l
+      · simp [guardedFrom, hl] at hg
+      · simp only [guardedFrom, hl, if_false] at hg
+        simpa [pubGuardedFrom, hl] using ih h hg
+    | runlock l' =>
+      by_cases hl : l' = l
+      · simp [guardedFrom, hl] at hg
+      · simp only [guardedFrom, hl, if_false] at hg
+        simpa [pubGuardedFrom, hl] using ih h hg
+    | read x =>
+      simp only [guardedFrom, Bool.and_eq_true] at hg
+      obtain ⟨rfl, hr⟩ := hg
+      simpa [pubGuardedFrom] using ih true hr
+    | write x =>
+      simp only [guardedFrom, Bool.and_eq_true] at hg
+      obtain ⟨rfl, hr⟩ := hg
+      simpa [pubGuardedFrom] using ih true hr
+    | tau =>
+      simp only [guardedFrom] at hg
+      simpa [pubGuardedFrom] using ih h hg
 
-theorem opLen_pos_of_inside (l : Nat) (t : Thread) (h : opsShape l true t = true) : 0 < opLen t := by
-  obtain ⟨b, r, rfl, _⟩ := opsShape_true_cons l t h
-  cases b <;> simp [opLen]
-
-theorem opsShape_false_cons (l : Nat) (a : Action) (r : Thread) (h : opsShape l false (a :: r) = true) :
-    a = .lock l ∧ opsShape l true r = true := by
-  cases a <;> simp [opsShape] at h
-  exact ⟨by rw [h.1], h.2⟩
-
-/-- a state reachable by any schedule: a sequential state, or one plus a proper prefix of one
-operation of one thread -/
-def Good (wv : WriteFn) (l : Nat) (s s' : State) : Prop :=
-  (BInv l s' ∧ ∃ order : List Nat, s' = order.foldl (stepOp wv) s) ∨
-  (∃ (i : Nat) (s0 : State) (order : List Nat) (k : Nat),
-      BInv l s0 ∧ s0 = order.foldl (stepOp wv) s ∧ s' = stepN wv s0 i k ∧ 0 < k ∧
-      opLen (s'.rem.getD i []) + k = opLen (s0.rem.getD i []) ∧ 0 < opLen (s'.rem.getD i []) ∧
-      MInv l s' i)
-
-theorem good_step (wv : WriteFn) (l : Nat) (s s' : State) (t : Nat) (h : Good wv l s s') :
-    Good wv l s (step wv s' t) := by
-  rcases h with ⟨⟨hown, hshape⟩, order, hord⟩ | ⟨i, s0, order, k, hb0, hs0, hs', hk, hlen, hpos, hown, ⟨ti, hti, hshi⟩, hoth⟩
-  · -- sequential state
-    cases hr : s'.rem[t]? with
-    | none => left; simp only [step, hr]; exact ⟨⟨hown, hshape⟩, order, hord⟩
-    | some tt =>
-      cases tt with
-      | nil => left; simp only [step, hr]; exact ⟨⟨hown, hshape⟩, order, hord⟩
-      | cons a r =>
-        obtain ⟨rfl, hr'⟩ := opsShape_false_cons l a r (hshape t _ hr)
-        right
-        have hstep : step wv s' t = { s' with rem := s'.rem.set t r, owner := upd s'.owner l (some t) } := by
-          simp only [step, hr, hown, if_true]
-        have hget : (s'.rem.set t r)[t]? = some r := by
-          obtain ⟨t', ht'⟩ := getElem?_set_isSome s'.rem t t r _ hr
-          rcases getElem?_set_cases _ _ _ _ _ ht' with ⟨_, rfl⟩ | ⟨hne, _⟩
-          · exact ht'
-          · exact absurd rfl hne
-        refine ⟨t, s', order, 1, ⟨hown, hshape⟩, hord, rfl, Nat.one_pos, ?_, ?_, ?_⟩
-        · rw [hstep]
-          simp only [getD_of_getElem? _ _ _ _ hget, getD_of_getElem? _ _ _ _ hr, opLen]
-        · rw [hstep]
-          simp only [getD_of_getElem? _ _ _ _ hget]
-          exact opLen_pos_of_inside l r hr'
-        · rw [hstep]
-          refine ⟨by simp [upd], ⟨r, hget, hr'⟩, ?_⟩
-          intro j tj hj hjt
-          simp only [] at hjt
-          rcases getElem?_set_cases _ _ _ _ _ hjt with ⟨e, _⟩ | ⟨_, hjt'⟩
-          · exact absurd e hj
-          · exact hshape j tj hjt'
-  · -- inside an operation of thread i
-    by_cases hti' : t = i
-    · subst hti'
-      obtain ⟨b, r, rfl, hcase⟩ := opsShape_true_cons l ti hshi
-      have hget : (s'.rem.set t r)[t]? = some r := by
-        obtain ⟨t', ht'⟩ := getElem?_set_isSome s'.rem t t r _ hti
-        rcases getElem?_set_cases _ _ _ _ _ ht' with ⟨_, rfl⟩ | ⟨hne, _⟩
-        · exact ht'
-        · exact absurd rfl hne
-      have hnext : step wv s' t = stepN wv s0 t (k + 1) := by rw [stepN_succ_right, ← hs']
-      rcases hcase with ⟨rfl, hr'⟩ | ⟨hnl, hnu, hr'⟩
-      · -- the unlock: the operation is complete
-        left
-        have hstep : step wv s' t = { s' with rem := s'.rem.set t r, owner := upd s'.owner l none } := by
-          simp only [step, hti, hown, if_true]
-        refine ⟨?_, order ++ [t], ?_⟩
-        · rw [hstep]
-          refine ⟨by simp [upd], ?_⟩
-          intro j tj hjt
-          simp only [] at hjt
-          rcases getElem?_set_cases _ _ _ _ _ hjt with ⟨_, rfl⟩ | ⟨hne, hjt'⟩
-          · exact hr'
-          · exact hoth j tj hne hjt'
-        · rw [List.foldl_append, ← hs0]
-          simp only [List.foldl_cons, List.foldl_nil, stepOp]
-          rw [hnext]
-          simp only [getD_of_getElem? _ _ _ _ hti, opLen] at hlen
-          rw [← hlen, Nat.add_comm]
-      · -- an access or a local step: still inside
-        right
-        have hstep : (step wv s' t).rem = s'.rem.set t r ∧ (step wv s' t).owner = s'.owner := by
-          cases b with
-          | lock l' => exact absurd rfl (hnl l')
-          | unlock l' => exact absurd rfl (hnu l')
-          | read x => simp [step, hti]
-          | write x => simp [step, hti]
-          | tau => simp [step, hti]
-        have hlen' : opLen (b :: r) = opLen r + 1 := by
-          cases b with
-          | lock l' => exact absurd rfl (hnl l')
-          | unlock l' => exact absurd rfl (hnu l')
-          | read x => rfl
-          | write x => rfl
-          | tau => rfl
-        refine ⟨t, s0, order, k + 1, hb0, hs0, hnext, Nat.succ_pos _, ?_, ?_, ?_⟩
-        · rw [hstep.1]
-          simp only [getD_of_getElem? _ _ _ _ hget]
-          simp only [getD_of_getElem? _ _ _ _ hti, hlen'] at hlen
-          omega
-        · rw [hstep.1]
-          simp only [getD_of_getElem? _ _ _ _ hget]
-          exact opLen_pos_of_inside l r hr'
-        · refine ⟨by rw [hstep.2]; exact hown, ⟨r, by rw [hstep.1]; exact hget, hr'⟩, ?_⟩
-          intro j tj hj hjt
-          rw [hstep.1] at hjt
-          rcases getElem?_set_cases _ _ _ _ _ hjt with ⟨e, _⟩ | ⟨_, hjt'⟩
-          · exact absurd e hj
-          · exact hoth j tj hj hjt'
-    · -- another thread: finished or blocked on the lock
-      have hnoop : step wv s' t = s' := by
-        cases hr : s'.rem[t]? with
-        | none => simp only [step, hr]
-        | some tt =>
-          cases tt with
-          | nil => simp only [step, hr]
-          | cons a r =>
-            obtain ⟨rfl, _⟩ := opsShape_false_cons l a r (hoth t _ hti' hr)
-            simp only [step, hr, hown]
-            simp
-      rw [hnoop]
-      right
-      exact ⟨i, s0, order, k, hb0, hs0, hs', hk, hlen, hpos, hown, ⟨ti, hti, hshi⟩, hoth⟩
-
-theorem good_runFrom (wv : WriteFn) (l : Nat) (s : State) (sched : List Nat) (s' : State)
-    (h : Good wv l s s') : Good wv l s (runFrom wv s' sched) := by
-  induction sched generalizing s' with
-  | nil => exact h
-  | cons t rest ih => exact ih _ (good_step wv l s s' t h)
-
-theorem binv_init (l : Nat) (p : Prog) (h : OpsProg l p) : BInv l (init p) :=
-  ⟨rfl, fun _ t ht => h t (List.mem_of_getElem? ht)⟩
-
-theorem good_run (wv : WriteFn) (l : Nat) (p : Prog) (h : OpsProg l p) (sched : List Nat) :
-    Good wv l (init p) (run wv p sched) :=
-  good_runFrom wv l (init p) sched (init p) (Or.inl ⟨binv_init l p h, [], rfl⟩)
+theorem allGuarded_pubGuarded (l : Nat) (X : Nat → Bool) (p : Prog) (h : AllGuardedBy l p) :
+    PubGuardedBy l X p := fun t ht => by simpa using guarded_pubGuarded l X false t (h t ht)
 
 end J5V.Conc.Sched
